@@ -4,6 +4,7 @@ package h
 // the model's documents, and its comparison with what rosmar returns.
 
 import (
+	"context"
 	"encoding/json"
 	"fmt"
 	"os"
@@ -232,6 +233,9 @@ type ViewQuery struct {
 	Group        bool     `json:"group,omitempty"`
 	GroupLevel   int      `json:"group_level,omitempty"`
 	Stale        string   `json:"stale,omitempty"` // "" (= false) | ok | updateAfter
+	// Cancelled: the query is made with a context that is already cancelled (an abandoned request):
+	// whatever it returns, it must not leave the index believing it is up to date
+	Cancelled bool `json:"cancelled,omitempty"`
 }
 
 func jsonVal(s string) any {
@@ -473,6 +477,11 @@ func genViewBody(rt *rapid.T) []byte {
 	if chance(rt, 75, "vb.hastype") {
 		m["type"] = pick(rt, []string{"t1", "t2"}, "vb.type")
 	}
+	if chance(rt, 7, "vb.multiline") {
+		// the same document written over several lines: stored, indexed and queried byte for byte
+		b, _ := json.MarshalIndent(m, "", " ")
+		return b
+	}
 	return mustJSON(m)
 }
 
@@ -692,6 +701,13 @@ func (r *Run) ViewStep(op Op) {
 	vo := op.View
 	spec, ok := r.ddocs(op.C)[vo.DDoc][vo.Name]
 	vs := r.W.Coll(op.H, op.C).(sgbucket.ViewStore)
+	if vo.Q.Cancelled {
+		cctx, cancel := context.WithCancel(ctx)
+		cancel()
+		_, _ = vs.View(cctx, vo.DDoc, vo.Name, vo.Q.Params())
+		tr.Outcome = "cancelled"
+		return
+	}
 	res, err := vs.View(ctx, vo.DDoc, vo.Name, vo.Q.Params())
 	if !ok {
 		if err == nil {
@@ -857,6 +873,8 @@ func genViewQueryOp(rt *rapid.T, r *Run) (Op, bool) {
 	q := genViewQuery(rt, r.ddocs(ref0.c)[ref0.dd][ref0.name])
 	if chance(rt, 12, "view.stale") {
 		q.Stale = "ok"
+	} else if chance(rt, 8, "view.cancelled") {
+		q.Cancelled = true
 	}
 	op.View = &ViewOp{DDoc: ref0.dd, Name: ref0.name, Q: &q}
 	return op, true
